@@ -1,10 +1,137 @@
-/- Driver for `kind = "c18"` (and `"c18:…"`) cases. -/
+/- Driver for `kind = "c18:…"` cases: store copy, profile copy, Indy migration. -/
 import Driver.Common
+import Driver.Store
+import AskarModel.Model.Copy
+import AskarModel.Model.IndyMigration
 
-open Lean
+open Lean Askar Askar.Wql Askar.Store Askar.Copy
 
 namespace Driver.C18
+open Driver.Store (parseTags jentries sortBy)
 
-def runCase (_j : Json) : Json := jerr "not implemented"
+def nameLt (a b : String) : Bool := Bytes.lt (utf8 a) (utf8 b)
+
+/-- {"default", "profiles": [{"name", "recs": [sorted live records]} sorted by name]} -/
+def dumpStore (now : Int) (st : StoreSt) : Json :=
+  let ps := sortBy (fun (a b : Profile) => nameLt a.name b.name) st.db.profiles
+  Json.mkObj [("default", .str st.default),
+    ("profiles", .arr (ps.map fun p =>
+      Json.mkObj [("name", .str p.name), ("recs", jentries false (liveAbs now ⟨p.id, p.key⟩ st.db))]).toArray)]
+
+/-- build a store from a spec: provision with the default profile, create the others, insert, set_default, remove -/
+def buildStore (now : Int) (keyBase : Nat) (spec : Json) : StoreSt :=
+  let st0 := provision keyBase (str! spec "default")
+  let st := (arr! spec "profiles").foldl (fun (st : StoreSt) p =>
+    let name := str! p "name"
+    let st := match createProfile st.db st.h name with
+      | .ok (db, h) => { st with db := db, h := h }
+      | .error _ => st
+    match resolve st.db st.h name with
+    | .error _ => st
+    | .ok (s, h) =>
+      let db := (arr! p "recs").foldl (fun (db : Db) x =>
+        match doInsert db now s (nat! x "k") (str! x "c") (str! x "n") (value! x "v") (parseTags x "t") (intOpt x "e") with
+        | .ok db' => db'
+        | .error _ => db) st.db
+      { st with db := db, h := h }) st0
+  let st := match strOpt spec "set_default" with
+    | some d => { st with default := d }
+    | none => st
+  (arr! spec "remove").foldl (fun (st : StoreSt) n =>
+    let ((db, h), _) := removeProfile st.db st.h (asStr n) evictOnRemove
+    { st with db := db, h := h }) st
+
+def jres : Except Err Unit → Json
+  | .ok _ => "ok"
+  | .error e => jerr e.name
+
+def runCopy (j : Json) : Json :=
+  let now : Int := 1700000000000
+  let page := (natOpt j "page").getD 32
+  let action := (getD? j "action").getD .null
+  let op := str! action "op"
+  let src := buildStore now 100 ((getD? j "src").getD .null)
+  let pre : Option StoreSt := (getD? j "dst").map (buildStore now 200)
+  let fault : Option Nat := (getD? j "fault").map (nat! · "j")
+  let fileTarget := pre.isSome || bool! action "file"
+  let out (r : Except Err Unit) (dst : Option StoreSt) (src : StoreSt) : Json :=
+    Json.mkObj [("res", jres r), ("dst", match dst with | some d => dumpStore now d | none => .null), ("src", dumpStore now src)]
+  match op with
+  | "copy_profile" =>
+    if bool! action "same" then
+      let (st, r) := copyProfileWithin page now fault src (str! action "from") (str! action "to")
+      out r none st
+    else
+      match pre with
+      | none => jerr "BadCase"
+      | some d =>
+        let (s, d', _, r) := copyProfile page now fault 0 src d (str! action "from") (str! action "to")
+        out r (some d') s
+  | "copy_to" | "copy_store" =>
+    let recreate := bool! action "recreate"
+    let (s, d, r) := copyStore page now fault 300 src pre recreate
+    -- after a failure an in-memory target is gone with its handle; a file stays and is reopened by the harness
+    let d := match r with
+      | .ok _ => d
+      | .error _ => if fileTarget then d else none
+    out r d s
+  | _ => jerr "BadOp"
+
+/-! ### Indy wallets: the driver encrypts the case's plaintext items with a toy AEAD, packs the tag lists the way the
+    SQL does, and runs the model of the migration on the result. -/
+
+open Askar.Indy
+
+def toyAead : Aead where
+  enc k n m := k ++ n ++ m
+  dec k n c := if c.take (k.length + n.length) == k ++ n then some (c.drop (k.length + n.length)) else none
+
+def utf8dec (b : Bytes) : Option String := String.fromUTF8? (ByteArray.mk b.toArray)
+
+def toyKeys : Keys := { typeKey := [1], nameKey := [2], valueKey := [3], tagNameKey := [4], tagValueKey := [5] }
+
+def sealed (k : Bytes) (m : Bytes) : Bytes :=
+  let n : Bytes := List.replicate 12 7
+  n ++ toyAead.enc k n m
+
+def encodeItem (i : Nat) (x : Json) : Except Err Row :=
+  let ik : Bytes := List.replicate 32 (UInt8.ofNat (i % 251))
+  let tags := (parseTags x "t").getD []
+  let te := (tags.filter (!·.plain)).map fun t => (sealed toyKeys.tagNameKey (utf8 t.name), sealed toyKeys.tagValueKey (utf8 t.value))
+  let tp := (tags.filter (·.plain)).map fun t => (sealed toyKeys.tagNameKey (utf8 t.name), utf8 t.value)
+  -- through the textual packing and back, as the rows reach `decrypt_item`
+  let unpack (l : List (Bytes × Bytes)) : Except Err (List (Bytes × Bytes)) :=
+    match packTagList l with
+    | none => .ok []
+    | some s => parseTagList s
+  match unpack te, unpack tp with
+  | .ok te', .ok tp' =>
+    .ok { id := 2 * i + 1, typ := sealed toyKeys.typeKey (utf8 (str! x "c")), name := sealed toyKeys.nameKey (utf8 (str! x "n")),
+          value := some (sealed ik (value! x "v")), key := sealed toyKeys.valueKey ik, tagsEnc := te', tagsPlain := tp' }
+  | .error e, _ => .error e
+  | _, .error e => .error e
+
+def runIndy (j : Json) : Json :=
+  let rows := (arr! j "items").zipIdx.foldr (fun (p : Json × Nat) (acc : Except Err (List Row)) =>
+    match encodeItem p.2 p.1, acc with
+    | .ok r, .ok rs => .ok (r :: rs)
+    | .error e, _ => .error e
+    | _, .error e => .error e) (.ok [])
+  match rows with
+  | .error e => jerr e.name
+  | .ok rows =>
+    let w : Wallet := { keysEnc := [9], rows := rows }
+    match migrate toyAead utf8dec (fun _ => some toyKeys) 1 w (str! j "name") with
+    | .error e => Json.mkObj [("res", jerr e.name), ("dump", .null)]
+    | .ok st => Json.mkObj [("res", "ok"), ("dump", dumpStore 0 st)]
+
+def runCase (j : Json) : Json :=
+  match str! j "kind" with
+  | "c18:copy" => runCopy j
+  | "c18:indy" => runIndy j
+  | "c18:fixture" =>
+    -- the shipped fixture holds no items
+    runIndy (Json.mkObj [("name", "walletwallet.0"), ("items", .arr #[])])
+  | _ => jerr "BadKind"
 
 end Driver.C18
